@@ -493,7 +493,11 @@ namespace occa {
     }
 
     if (enum_) {
-      return enum_->toJson(j, name);
+      enum_->toJson(j, name);
+      // Unlike structs, tuples and unions, the size of an enum
+      // cannot be recomputed from its entries
+      j["bytes"] = bytes_;
+      return;
     } else if (struct_) {
       return struct_->toJson(j, name);
     } else if (tuple_) {
@@ -537,12 +541,25 @@ namespace occa {
       dtype = builtin;
     } else if (type == "enum") {
       dtype.enum_ = dtypeEnum_t::fromJson(j).clone();
+      dtype.bytes_ = (int) j["bytes"];
     } else if (type == "struct") {
       dtype.struct_ = dtypeStruct_t::fromJson(j).clone();
+      // bytes_ is not stored: recompute it as addField() does
+      const int fieldCount = dtype.struct_->fieldCount();
+      for (int i = 0; i < fieldCount; ++i) {
+        dtype.bytes_ += (*dtype.struct_)[i].bytes();
+      }
     } else if (type == "tuple") {
       dtype.tuple_ = dtypeTuple_t::fromJson(j).clone();
+      // bytes_ is not stored: recompute it as tuple() does
+      dtype.bytes_ = dtype.tuple_->dtype.bytes() * dtype.tuple_->size;
     } else if (type == "union") {
       dtype.union_ = dtypeUnion_t::fromJson(j).clone();
+      // bytes_ is not stored: recompute it as addField() does
+      const int fieldCount = dtype.union_->fieldCount();
+      for (int i = 0; i < fieldCount; ++i) {
+        dtype.bytes_ += (*dtype.union_)[i].bytes();
+      }
     } else if (type == "custom") {
       dtype.bytes_ = (int) j["bytes"];
     } else {
